@@ -794,24 +794,30 @@ func checkContainers(c *ContainerCase) (sub, msg string) {
 	}
 	stream := append([]byte{}, buf.Bytes()...)
 	dec := cedar.NewDecoder(&buf)
-	var dgot []*ir.Policy
+	// decode the whole stream first and look at the policies afterwards: a decoder that reuses storage between Decode
+	// calls would otherwise go unnoticed
+	var decoded []*cedar.Policy
 	for {
-		var q cedar.Policy
-		err := dec.Decode(&q)
+		q := new(cedar.Policy)
+		err := dec.Decode(q)
 		if errors.Is(err, io.EOF) {
 			break
 		}
 		if err != nil {
 			return "stream/rejected", fmt.Sprintf("Decoder rejects Encoder output: %v\ntext: %s", err, stream)
 		}
-		qi, err := conv.FromPolicy(&q)
+		decoded = append(decoded, q)
+		if len(decoded) > n+1 {
+			break
+		}
+	}
+	var dgot []*ir.Policy
+	for _, q := range decoded {
+		qi, err := conv.FromPolicy(q)
 		if err != nil {
 			return "stream/unreadable", err.Error()
 		}
 		dgot = append(dgot, qi)
-		if len(dgot) > n+1 {
-			break
-		}
 	}
 	if s, m := same("stream", dgot, ident, stream); s != "" {
 		return s, m
